@@ -43,7 +43,14 @@ def to_sr(t, name):
 
 
 def from_sr(t, name):
-    return t.exp() if name == 'log' else t
+    if name != 'log':
+        return t
+    r = t.exp()
+    # a FINITE log-value whose exponential overflows (e.g. 3.4e38 where the least solution is +inf, i.e. log-value +inf) must not be
+    # taken for +inf: it is mapped to the largest finite float, which the comparison with an infinite least solution rejects
+    if r.is_floating_point():
+        r = torch.where(torch.isfinite(t) & torch.isinf(r), torch.full_like(r, torch.finfo(r.dtype).max), r)
+    return r
 
 
 def enc_mat(a):
